@@ -74,6 +74,71 @@ def r02a(ctx, run):
                       "byte beyond it belongs to the next live value (sibling sites store iconst(types::I8, _))" % (show_chain(val, 3)[:80], tyshown))
 
 
+CL_BYTES = {"I8": 1, "I16": 2, "I32": 4, "I64": 8, "I128": 16, "F32": 4, "F64": 8}
+
+
+def guard_keeps_extent(fn, h, body, W):
+    """the loop guard must imply  off + W <= bound  (bound <= the object's extent): accepted forms, for a running offset `off`
+    advanced by W:  off + c <= B with c >= W;  off + c < B with c >= W - 1;  off < B / off <= B - W where B is a multiple of W
+    written as (x / W) * W.  Returns (ok, description)."""
+    descs = []
+    for u, v in fn.loop_exit_edges(h, body):
+        t = fn.blocks[u]["t"]
+        if t["k"] != "switch":
+            continue
+        ch = fn.switch_operand(u, depth=10)
+        if not isinstance(ch, dict) or ch.get("kind") != "bin" or ch["op"] not in ("Le", "Lt", "Ge", "Gt"):
+            descs.append("guard is not a comparison: %s" % show_chain(ch, 4)[:80])
+            continue
+
+        def has_off(c):
+            return any(n.get("kind") in ("phi", "cut") and n.get("name") in ("off", "offset", "i") for n in walk_chain(c))
+        l, r, op = ch["l"], ch["r"], ch["op"]
+        if has_off(r) and not has_off(l):
+            l, r = r, l
+            op = {"Le": "Ge", "Lt": "Gt", "Ge": "Le", "Gt": "Lt"}[op]
+        if not has_off(l) or op not in ("Le", "Lt"):
+            descs.append("guard does not bound the running offset from above: %s" % show_chain(ch, 4)[:80])
+            continue
+        # addend on the offset side: only at the top of the expression (the loop-carried `off += W` inside the phi of `off` is not it)
+        def top(n):
+            while isinstance(n, dict) and n.get("kind") in ("place", "cast") and not (n.get("kind") == "place" and n.get("base", {}).get("kind") in (None,)):
+                nxt = n.get("base") if n.get("kind") == "place" else n.get("of")
+                if not isinstance(nxt, dict):
+                    break
+                n = nxt
+            return n
+        c = 0
+        t0 = top(l)
+        if t0.get("kind") == "bin" and t0["op"].startswith("Add"):
+            a, b = t0["l"], t0["r"]
+            if b.get("kind") != "scalar" and a.get("kind") == "scalar":
+                a, b = b, a
+            if b.get("kind") == "scalar" and top(a).get("kind") in ("phi", "cut", "param", "undef"):
+                try:
+                    c = int(b["value"])
+                except ValueError:
+                    c = 0
+            else:
+                descs.append("offset side of the guard is not `off + constant`: %s" % show_chain(l, 4)[:60])
+                return False, "; ".join(descs)
+        elif t0.get("kind") not in ("phi", "cut"):
+            descs.append("offset side of the guard is not the running offset: %s" % show_chain(l, 4)[:60])
+            return False, "; ".join(descs)
+        # bound is a multiple of W: (x Div W) Mul W
+        mult = any(n.get("kind") == "bin" and n["op"].startswith("Mul") and n["r"].get("kind") == "scalar" and n["r"]["value"] == str(W) and
+                   any(m.get("kind") == "bin" and m["op"] == "Div" and m["r"].get("kind") == "scalar" and m["r"]["value"] == str(W) for m in walk_chain(n["l"]))
+                   for n in walk_chain(r))
+        ok = (op == "Le" and c >= W) or (op == "Lt" and c >= W - 1) or (op == "Lt" and c == 0 and mult)
+        descs.append("guard `off%s %s %s`%s" % (" + %d" % c if c else "", "<=" if op == "Le" else "<", show_chain(r, 4)[:50], "" if ok else
+                                               " does not imply off + %d <= bound" % W))
+        if not ok:
+            return False, "; ".join(descs)
+    if not descs:
+        return False, "no exit guard found"
+    return True, "; ".join(descs)
+
+
 def loop_facts(fn, h, body):
     """K (byte widths of stored values), W (constant advances of the running offset), bound callee names"""
     K, W, bounds, stores = set(), set(), set(), []
@@ -85,6 +150,10 @@ def loop_facts(fn, h, body):
             for n in walk_chain(val):
                 if n.get("kind") == "call" and short(n["callee"]) == "int_with_byte_size" and n["args"] and n["args"][0].get("kind") == "scalar":
                     K.add(int(n["args"][0]["value"]))
+                if n.get("kind") == "call" and short(n["callee"]) in ("load", "stack_load") and len(n["args"]) > 1 and n["args"][1].get("kind") == "const":
+                    tyname = n["args"][1]["path"].rsplit("::", 1)[-1]
+                    if tyname in CL_BYTES:
+                        K.add(CL_BYTES[tyname])
         if nm in ("stride", "size") and "layout" in c.callee:
             bounds.add(nm)
     # running offset: the local stored-at / loaded-from; take constant addends to a named mutable local
@@ -124,6 +193,14 @@ def r02b(ctx, run):
                 run.exempt(site, what, "stored value's width is not an int_with_byte_size constant (typed word copy); not a stride loop")
                 continue
             good = K == W
+            if good and len(W) == 1:
+                gok, gdesc = guard_keeps_extent(fn, h, body, list(W)[0])
+                if not gok and owner not in EXEMPT_LOOPS:
+                    run.finding(owner, "loop-guard:w%d" % list(W)[0], stores[0].file, stores[0].ln,
+                                what + ": %s - the last iteration writes past the bound (up to %d bytes beyond the object: the neighbouring value is overwritten)"
+                                % (gdesc, list(W)[0] - 1))
+                    continue
+                what += " (" + gdesc[:90] + ")"
             if good:
                 run.ok(site, what)
             elif owner in EXEMPT_LOOPS:
